@@ -21,9 +21,17 @@ F = 'EoN/simulation.py'
 
 
 def mk_ld(ksort, weighted):
-    """maker of a symbolic _ListDict_ over key sort `ksort` ('U' or 'Pair')"""
-    def mk(run, name, **kw):
+    """maker of a symbolic _ListDict_ over key sort `ksort` ('U' or 'Pair').  With empty=True it is the
+    result of the constructor call `_ListDict_(weighted=...)`: the postcondition of __init__ is assumed
+    (caller view of the constructor) and the `weighted` argument must match the declared mode."""
+    def mk(run, name, empty=False, ctor_args=None, **kw):
         K = T.sort_of(ksort)
+        if ctor_args is not None:
+            args, kws = ctor_args
+            w = kws.get('weighted', args[0] if args else BoolVal(False))
+            if not (z3.is_expr(w) and (z3.is_true(w) if weighted else z3.is_false(w))):
+                from ..pyvc.engine import Unbindable
+                raise Unbindable('constructor _ListDict_(weighted=%s) does not match the declared mode weighted=%s of %s' % (w, weighted, name))
         f = dict(items=SList(K, name=name + '_items'),
                  item_to_position=SDict(K, I, name=name + '_pos'),
                  weighted=BoolVal(weighted))
@@ -32,7 +40,11 @@ def mk_ld(ksort, weighted):
                      max_weight=fresh(name + '_max', R),
                      _total_weight=fresh(name + '_tot', R),
                      max_weight_count=fresh(name + '_cnt', I))
-        return SObj('_ListDict_', f, name=name)
+        ld = SObj('_ListDict_', f, name=name)
+        if empty:
+            run.assume(ld.wellformed())
+            run.assume(And(WF(ld), so.forall(K, lambda k: Not(members(ld)[k])), total(ld) == 0, ld.items.n == 0))
+        return ld
     return mk
 
 
@@ -130,6 +142,16 @@ def _inc_ok(s):
     return BoolVal(w is NONE)
 
 
+def _norm(*names):
+    def n(run, bound):
+        from ..pyvc.values import coerce
+        K = K_of(bound['self'])
+        for nm in names:
+            if nm in bound and bound[nm] is not NONE:
+                bound[nm] = coerce(bound[nm], K)
+    return n
+
+
 def contracts(ksort='U'):
     ldW, ldU = mk_ld(ksort, True), mk_ld(ksort, False)
     key = T.scalar(ksort)
@@ -142,6 +164,7 @@ def contracts(ksort='U'):
 
     cs.append(Contract(F, '_ListDict_.__contains__',
         cases=[Case('weighted', dict(self=ldW, item=key)), Case('unweighted', dict(self=ldU, item=key))],
+        normalize=_norm('item'),
         pure=lambda s: members(s.self)[s.item],
         ensures=lambda old, s, ret: And(ret == members(old.self)[old.item], same_repr(s.self, old.self))))
 
@@ -168,14 +191,14 @@ def contracts(ksort='U'):
     cs.append(Contract(F, '_ListDict_.remove',
         cases=[Case('weighted', dict(self=ldW, choice=key)), Case('unweighted', dict(self=ldU, choice=key))],
         requires=lambda s: And(WF(s.self), members(s.self)[s.choice]), axioms=_axioms,
-        modifies=['self'],
+        modifies=['self'], normalize=_norm('choice'),
         ensures=lambda old, s, ret: And(WF(s.self), view_is(s.self, old.self, old.choice, BoolVal(False), RealVal(0)))))
 
     cs.append(Contract(F, '_ListDict_.update',
         cases=[Case('weighted', dict(self=ldW, item=key, weight_increment=T.real)),
                Case('unweighted', dict(self=ldU, item=key, weight_increment=T.none))],
         requires=lambda s: And(WF(s.self), _inc_ok(s)), axioms=_axioms,
-        modifies=['self'],
+        modifies=['self'], normalize=_norm('item'),
         ensures=lambda old, s, ret: And(WF(s.self), view_is(
             s.self, old.self, old.item, BoolVal(True),
             (old.self.weight.val[old.item] + old.weight_increment) if is_weighted(old.self) else None))))
@@ -184,7 +207,7 @@ def contracts(ksort='U'):
         cases=[Case('weighted', dict(self=ldW, item=key, weight=T.real)),
                Case('unweighted', dict(self=ldU, item=key, weight=T.none))],
         requires=lambda s: And(WF(s.self), _inc_ok(s)), axioms=_axioms,
-        modifies=['self'],
+        modifies=['self'], normalize=_norm('item'),
         ensures=lambda old, s, ret: And(WF(s.self), view_is(
             s.self, old.self, old.item,
             (old.weight != 0) if is_weighted(old.self) else BoolVal(True),
@@ -192,7 +215,7 @@ def contracts(ksort='U'):
 
     def choose_pre(s):
         ld = s.self
-        c = [WF(ld), ld.items.n > 0, sign_lemmas(ld)]
+        c = [WF(ld), ld.items.n > 0]
         if is_weighted(ld):
             c.append(wsum(ld.weight.val) > 0)
         return And(*c)
@@ -220,7 +243,7 @@ def contracts(ksort='U'):
 
     cs.append(Contract(F, '_ListDict_.choose_random',
         cases=[Case('weighted', dict(self=ldW)), Case('unweighted', dict(self=ldU))],
-        requires=choose_pre, axioms=_axioms,
+        requires=choose_pre, axioms=lambda s: _axioms(s) + [sign_lemmas(s.self)],
         modifies=['self'],
         make_ret=lambda run, s: fresh('chosen', K_of(s.self)),
         loops={0: lambda s, it: And(same_repr(s.self, it.entry.self))},
